@@ -92,12 +92,42 @@ class Lab:
         self.effects = Run()
         eff = _effects(self.effects)
         self.analysed: list = []
+        self._measuring = False
+        mf = prj.maybe_func("codelimit.common.Scanner:scan_file")      # follows a re-export to wherever the function lives now
+        self.measure_qual = mf.qual if mf is not None else None
         self.calls: list = []          # (function, arguments) of lex / scan_file / CheckResult.add in deep mode
         self.measured = None
         self.spec_roots: list = []
         self.excl_args: list = []
         self.walked: list = []
         fs = fs_hook(self.vfs)
+
+        def is_token_list(x):
+            """the result of the lexing stub (or a list derived from it by the repo's own code)"""
+            if isinstance(x, (list, tuple)) and x and isinstance(x[0], Sym):
+                return x[0].name.startswith("tokens-of:") or str(x[0].fields.get("value", "")).startswith("tokens-of:")
+            return False
+
+        def is_language(x):
+            return isinstance(x, Sym) and x.name.startswith("language:")
+
+        def path_of_tokens(x):
+            t = x[0].name if x[0].name.startswith("tokens-of:") else str(x[0].fields.get("value"))
+            t = t[len("tokens-of:"):]
+            return t[len("text of "):] if t.startswith("text of ") else t
+
+        def measured_result(f, args, kwargs):
+            self.calls.append(("scan_file", list(args), dict(kwargs)))
+            toks = next((a for a in list(args) + list(kwargs.values()) if is_token_list(a)), None)
+            if toks is not None:
+                self.analysed.append(self.vfs.abs(path_of_tokens(toks)))
+            if not self.deep:
+                return []
+            if self.measured is not None:
+                return list(self.measured)
+            m1 = Sym("measurement", unit_name="f", value=40, start=Sym("loc", line=1, column=1), end=Sym("loc", line=41, column=1))
+            m2 = Sym("measurement", unit_name="g", value=7, start=Sym("loc", line=50, column=1), end=Sym("loc", line=57, column=1))
+            return [m1, m2]
 
         def hook(it, kind, f, args, kwargs, node, cur):
             r = fs(it, kind, f, args, kwargs, node, cur)
@@ -113,12 +143,6 @@ class Lab:
                     root = sval(args[0]) if args else None
                     self.spec_roots.append(root)
                     return Sym("spec", root=self.vfs.abs(root) if root is not None else None)
-                if q.endswith(":_scan_file") and not self.deep:
-                    self.analysed.append(self.vfs.abs(sval(args[3])))
-                    return Sym("entry")
-                if q.endswith(":_read_file") and not self.deep:
-                    self.analysed.append(self.vfs.abs(sval(args[0])))
-                    return "code"
                 if q.endswith(":calculate_checksum"):
                     return "sum:" + self.vfs.abs(sval(args[0]))
                 if q.endswith(":lex") and "lexer_utils" in q:
@@ -127,18 +151,16 @@ class Lab:
                     if "filter_comments" not in bound:
                         d = f.fi.param_default("filter_comments")
                         bound["filter_comments"] = it.ev(d, {}, f.fi) if d is not None else None
-                    toks = [Sym("tokens-of:" + str(bound.get("code"))[:40])]
+                    toks = [Sym("tokens-of:" + str(bound.get("code"))[:60])]
                     self.calls.append(("lex", bound, toks))
                     return toks
-                if q.endswith(":scan_file"):
-                    if self.deep:
-                        self.calls.append(("scan_file", list(args), dict(kwargs)))
-                        if self.measured is not None:
-                            return list(self.measured)
-                        m1 = Sym("measurement", unit_name="f", value=40, start=Sym("loc", line=1, column=1), end=Sym("loc", line=41, column=1))
-                        m2 = Sym("measurement", unit_name="g", value=7, start=Sym("loc", line=50, column=1), end=Sym("loc", line=57, column=1))
-                        return [m1, m2]
-                    return []
+                # the measuring step, wherever it lives and whatever it is called: the (outermost) function of the project that
+                # is handed both the token list of the lexing step and the language object registered for the lexer
+                everything = list(args) + list(kwargs.values()) + (list(f.self_obj.fields.values()) if isinstance(f.self_obj, Sym) else [])
+                if any(is_token_list(a) for a in everything) and any(is_language(a) for a in everything) and not self._measuring:
+                    if self.measure_qual is None or q == self.measure_qual:
+                        return measured_result(f, args, kwargs)
+                    # a wrapper around the measuring function: interpret it, the inner call is stubbed
                 if q.endswith("CheckResult.add") and self.deep:
                     self.calls.append(("add", list(args), dict(kwargs)))
                 if (q.endswith("CheckResult.report") or q.endswith("CheckResult.add")) and not self.deep:
@@ -146,28 +168,46 @@ class Lab:
             if isinstance(f, tuple) and f and f[0] == "external":
                 name = f[1].replace(":", ".")
                 base = name.split(".")[-1]
-                if base in ("get_lexer_for_filename", "guess_lexer_for_filename", "find_lexer_class_for_filename"):
-                    s = sval(args[0])
-                    lang = lexer_of(s)
+                if base in ("get_lexer_for_filename", "guess_lexer_for_filename", "find_lexer_class_for_filename", "get_lexer_by_name", "find_lexer_class_by_name"):
+                    sname = sval(args[0])
+                    lang = lexer_of(sname) if "filename" in base else (sname if sname in set(LEXERS.values()) | set(SUPPORTED) else None)
                     if lang is None:
+                        if base.startswith("find_"):
+                            return None
                         raise PyRaise("ClassNotFound", node)
                     lx = Sym("lexer")
                     lx.fields["__class__"] = Sym("lexercls", name=lang)
                     lx.fields["name"] = lang
+                    if base.startswith("find_"):
+                        cls_ = Sym("lexercls-callable", name=lang)
+                        cls_.fields["__call__"] = lx
+                        return cls_
                     return lx
                 if base in ("info", "debug", "warning", "print", "echo"):
                     return None
                 if name.endswith("typer.Exit") or base == "Exit":
                     return Sym("Exit", **{k: v for k, v in kwargs.items()})
+            if isinstance(f, tuple) and f and f[0] == "method" and isinstance(f[1], Sym) and f[1].name == "lexer" and f[2] in ("get_tokens_unprocessed", "get_tokens"):
+                # the lexing step below a renamed / moved lex(): one token per file, carrying the file's text as its marker
+                code = args[0] if args else kwargs.get("text")
+                return [(0, Sym("Name"), "tokens-of:" + str(code)[:60])] if f[2] == "get_tokens_unprocessed" else [(Sym("Name"), "tokens-of:" + str(code)[:60])]
+            if isinstance(f, Sym) and f.name == "lexercls-callable":
+                return f.fields["__call__"]
             if isinstance(f, tuple) and f and f[0] == "method" and isinstance(f[1], Sym) and f[1].name == "spec" and f[2] == "match_file":
-                s = sval(args[0])
-                self.excl_args.append(s)
-                return spec_matches(f[1].fields.get("root"), s)
+                sarg = sval(args[0])
+                self.excl_args.append(sarg)
+                return spec_matches(f[1].fields.get("root"), sarg)
+            if isinstance(f, tuple) and f and f[0] == "method" and isinstance(f[1], Sym) and f[1].name == "spec" and f[2] == "match_files":
+                out_ = []
+                for x in it.iterate(args[0]):
+                    sarg = sval(x)
+                    self.excl_args.append(sarg)
+                    if spec_matches(f[1].fields.get("root"), sarg):
+                        out_.append(x)
+                return out_
             if isinstance(f, tuple) and f and f[0] == "method" and isinstance(f[1], Sym) and f[1].name in ("callback",):
                 return None
-            if self.deep:
-                return eff(it, kind, f, args, kwargs, node, cur)
-            return NotImplemented
+            return eff(it, kind, f, args, kwargs, node, cur)
         self.hook = hook
 
     def run(self, q: str, args: list, kwargs=None):
@@ -181,7 +221,7 @@ class Lab:
                 raise
         if self.deep:
             return sorted({a for a in self.vfs.read_log})
-        return sorted(self.analysed)
+        return sorted(set(self.analysed))
 
 
 def all_files(root=ROOT):
